@@ -878,6 +878,7 @@ Fixpoint tiles (cur : N) (prev : spanT) (l : list spanT) : sres N :=
   | [] => SOk cur
   | (a, b) :: l' =>
     if a =? b then tiles cur prev l'
+    else if b <? a then SErr R_overlap a
     else if (a =? fst prev) && (b =? snd prev) then tiles cur prev l'
     else if a =? cur then tiles b (a, b) l'
     else if cur <? a then SErr R_gap cur
@@ -891,6 +892,9 @@ Record sdoc := {
   s_revisions : N;
   s_stream : bool;           (* newest section is a cross-reference stream *)
   s_spans : list spanT;      (* the sorted tiling *)
+  s_revs : list revision;    (* the cross-reference sections, newest first *)
+  s_located : list (list located);   (* per section: the object each in-use entry points at *)
+  s_startxref : N;           (* the number found at the end of the file *)
 }.
 
 (* filler opening each revision (oldest first): comment / white space after the previous marker *)
@@ -981,5 +985,5 @@ Definition strict_load (file : bytes) : sres sdoc :=
             (map (filter (fun l => negb (is_xref_off revs (l_off l)))) locs) [] [] in
         SOk {| s_version := ver; s_objects := objs; s_trailer := r_trailer newest;
                s_revisions := N.of_nat (length revs); s_stream := r_stream newest;
-               s_spans := sorted |}
+               s_spans := sorted; s_revs := revs; s_located := locs; s_startxref := x |}
   end.
